@@ -4,7 +4,6 @@ from .common import hx, rbytes, budget
 
 HARNESS = "sec"
 CONST_GROUPS = ["security", "message", "cipher", "license"]
-READY = False
 RULE = ("cases: parse <topic bytes> (ParseChannel: keys, levels, wildcards, options incl. malformed ones), target <string> "
         "(Key.SetTarget), and authz tuples (key fields: salt, master id, contract, signature, permission mask, target, "
         "expiry; ban flag; requested channel; operation permission) executed through the real Service.Authorize of a broker "
